@@ -27,8 +27,9 @@ Entry ==
 \* (packages of GOROOT/src that the table lacks are only counted: go list leaves out what the build constraints of this
 \*  platform exclude - arena, runtime/asan, crypto/boring ... - and the property speaks about the entries of the table)
 Missing == E.ev = "missing"
+TableBad == E.ev = "tablebad" /\ Report("C18", "gennames: what the tool wrote is not a Go source file holding the table")
 Init == l = 1
-Next == l <= Len(Trace) /\ l' = l + 1 /\ (Entry \/ Missing)
+Next == l <= Len(Trace) /\ l' = l + 1 /\ (Entry \/ Missing \/ TableBad)
 Spec == Init /\ [][Next]_l
 Accepted == TLCGet("stats").diameter - 1 = Len(Trace)
 =============================================================================
